@@ -837,6 +837,9 @@ def _find_script_path(tokens: list[str], cwd: Path) -> tuple[Path | None, int]:
             continue
 
         # Found the script path
+        if token.startswith("~"):
+            # The shell expands an unquoted ~; which file runs is not known here
+            return None, -1
         script_path = Path(token)
         if not script_path.is_absolute():
             script_path = cwd / script_path
